@@ -280,6 +280,11 @@ def rewrite_for(pat, expr, arrays):
         return ('let mut %s: usize = %s;' % (k, start), 'while %s < %s.len()' % (k, s),
                 '%s %s = %s + 1;' % (bind_elem(pat, '%s[%s]' % (s, k)), k, k),
                 'P1 slice iter' + (' skip' if m.group(2) else ''))
+    m = re.fullmatch(r'&?\s*([A-Za-z_][\w.]*)\[\s*([^\[\]]*?)\s*\.\.\s*([^\[\]]*?)\s*\]', expr, flags=re.S)
+    if m and _simple_path(m.group(1)):
+        s_, a_, b_ = m.group(1), (m.group(2) or '0'), (m.group(3) or '%s.len()' % m.group(1))
+        return ('let mut %s: usize = %s; let __end_%s: usize = %s;' % (k, a_, v, b_), 'while %s < __end_%s' % (k, v),
+                '%s %s = %s + 1;' % (bind_elem(pat, '%s[%s]' % (s_, k)), k, k), 'P3 sub-slice S[A..B] by ref')
     if _simple_path(expr):
         if expr in arrays or pat.startswith('&') or pat.startswith('('):
             return ('let mut %s: usize = 0;' % k, 'while %s < %s.len()' % (k, expr),
@@ -289,7 +294,11 @@ def rewrite_for(pat, expr, arrays):
     raise Unsupported('for-loop header: for %s in %s' % (pat, expr))
 
 
+UNSUPPORTED_SITES = []
+
+
 def rewrite_loops(src, log):
+    del UNSUPPORTED_SITES[:]
     arrays = set(re.findall(r'\b(?:let|const)\s+(\w+)\s*(?::\s*\[[^=]*\])?\s*=\s*\[', mask(src)))
     pos = 0
     while True:
@@ -308,7 +317,15 @@ def rewrite_loops(src, log):
             k += 1
         pat = src[m.start(1):m.end(1)]
         expr = src[m.end():k]
-        rw = rewrite_for(pat, expr, arrays)
+        try:
+            rw = rewrite_for(pat, expr, arrays)
+        except Unsupported as e:
+            # leave the loop as it is; the enclosing function is reported as outside the supported subset
+            log.append('UNSUPPORTED %s' % e)
+            UNSUPPORTED_SITES.append((m.start(), str(e)))
+            src = src[:m.start()] + '/*@unsupported*/' + src[m.start():]
+            pos = k + len('/*@unsupported*/')
+            continue
         if rw is None:
             log.append('native for: for %s in %s' % (pat.strip(), expr.strip()))
             pos = k
@@ -513,6 +530,12 @@ def extract_module(path, log):
             src = src[:m.start()] + '#[verifier::external_derive]\n' + src[m.start():]
             twins.append({'d1_type': m.group(2)})
             log.append('D1 external derive(Clone) on struct %s + assumed spec r == *self' % m.group(2))
+    # functions containing a construct outside the supported subset
+    if '/*@unsupported*/' in src:
+        msk2 = mask(src)
+        for name, kw, bo, bc in find_fns(src, msk2):
+            if '/*@unsupported*/' in src[bo:bc]:
+                twins.append({'unsupported_fn_pos': kw, 'why': [l for l in log if l.startswith('UNSUPPORTED')][-1]})
     return src, twins
 
 
